@@ -44,7 +44,7 @@ def run(ctx):
     for i in range(n):
         hostile = rng.choice([0.0, 0.35, 0.8])
         factors = pools.random_factors(rng, max_factors=3, max_exp=3, hostile=hostile)
-        target = pools.same_dimension_alternative(rng, factors, compose_prob=rng.choice([0.0, 0.3, 0.7]))
+        target = pools.same_dimension_alternative(rng, factors, compose_prob=rng.choice([0.0, 0.3, 0.7]), keep_dimensionless_choice=True)
         st, tt = pools.factors_term(factors), pools.factors_term(target)
         try:
             src, dst = mdl.eval_real(st), mdl.eval_real(tt)
